@@ -724,3 +724,38 @@ impl CpcSketch {
         self.num_coupons
     }
 }
+
+#[cfg(feature = "verif-hooks")]
+impl CpcSketch {
+    /// Verification hook: offer an already-formed `(row << 6) | col` pair.
+    #[doc(hidden)]
+    pub fn verif_row_col_update(&mut self, row_col: u32) {
+        self.row_col_update(row_col);
+    }
+
+    /// Verification hook: the k x 64 bit matrix the sketch currently represents.
+    #[doc(hidden)]
+    pub fn verif_bit_matrix(&self) -> Vec<u64> {
+        self.build_bit_matrix()
+    }
+
+    /// Verification hook: scalar fields.
+    #[doc(hidden)]
+    pub fn verif_fields(&self) -> crate::verif::CpcFields {
+        crate::verif::CpcFields {
+            lg_k: self.lg_k,
+            num_coupons: self.num_coupons,
+            window_offset: self.window_offset,
+            first_interesting_column: self.first_interesting_column,
+            merge_flag: self.merge_flag,
+            has_window: !self.sliding_window.is_empty(),
+            table_entries: self
+                .surprising_value_table
+                .as_ref()
+                .map(|t| t.slots().iter().filter(|&&s| s != u32::MAX).count() as u32)
+                .unwrap_or(0),
+            kxp: self.kxp,
+            hip_est_accum: self.hip_est_accum,
+        }
+    }
+}
